@@ -12,7 +12,7 @@ from .. import lib_fm_transpile as T
 CORE = ('intfn', 'ipow', 'while', 'boundmod')
 POOLS = ('core', 'lb', 'step', 'lvafter', 'idiv', 'mod', 'sign', 'conv', 'intcast', 'select', 'exitcycle', 'section')
 QUICK = {'core': 24, '*': 4}
-THOROUGH = {'core': 700, '*': 50}
+THOROUGH = {'core': 240, '*': 14}
 
 ASSUMPTIONS = [
     'Python-transpilable subset generated: stand-alone subroutine, integer / real(real64) / logical scalars with every intent, 1-d and 2-d '
